@@ -325,10 +325,14 @@ Qed.
 
 (** ---- running the write ------------------------------------------------------------------------- *)
 
-Definition attrs_of (c : coll) : list (Z * aval) :=
+(** the attributes of the group before the marker is written, and of the complete file (marker last) *)
+Definition attrs_body (c : coll) : list (Z * aval) :=
   let m := c.(c_meta) in
-  [ (0, AInt 1); (1, AInt c.(c_k)); (2, AStr c.(c_prefix)); (3, o2a m.(m_id)); (4, o2a m.(m_name));
+  [ (1, AInt c.(c_k)); (2, AStr c.(c_prefix)); (3, o2a m.(m_id)); (4, o2a m.(m_name));
     (5, o2a m.(m_id_attr)); (6, o2a m.(m_version)); (7, o2a m.(m_desc)); (8, o2a m.(m_extra)) ].
+Definition attrs_of (c : coll) : list (Z * aval) := attrs_body c ++ [(0, AInt 1)].
+(** ... and of the file written in the order as found (marker first) *)
+Definition attrs_of_v0 (c : coll) : list (Z * aval) := (0, AInt 1) :: attrs_body c.
 
 Lemma wf_parts : forall c, wf_coll c = true ->
   1 <= c.(c_k) /\ forallb is_nuc c.(c_prefix) = true /\
@@ -341,20 +345,26 @@ Proof.
   repeat split; try assumption; try lia; try (now apply Nat.eqb_eq).
 Qed.
 
-Lemma run_attr_ops : forall c, wf_coll c = true ->
-  run (attr_ops c) empty_store = SOk {| attrs := attrs_of c; dsets := [] |}.
+(** the attribute calls on a group that holds no attribute but possibly the marker ([pre] = [] or the marker) *)
+Lemma run_attr_ops_from : forall c pre, wf_coll c = true -> pre = [] \/ pre = [(0, AInt 1)] ->
+  run (attr_ops c) {| attrs := pre; dsets := [] |} = SOk {| attrs := pre ++ attrs_body c; dsets := [] |}.
 Proof.
-  intros c H; apply wf_parts in H as (Hk & Hp & (H1 & H2 & H3 & H4 & H5 & H6) & _ & _).
-  unfold attr_ops, attrs_of; cbn [run run_op aval_ok sbind empty_store attrs dsets].
-  rewrite (nucs_valid _ Hp); cbn [sbind run run_op attrs dsets].
-  rewrite (o2a_ok _ H1); cbn [sbind run run_op attrs dsets].
-  rewrite (o2a_ok _ H2); cbn [sbind run run_op attrs dsets].
-  rewrite (o2a_ok _ H3); cbn [sbind run run_op attrs dsets].
-  rewrite (o2a_ok _ H4); cbn [sbind run run_op attrs dsets].
-  rewrite (o2a_ok _ H5); cbn [sbind run run_op attrs dsets].
-  rewrite (o2a_ok _ H6); cbn [sbind run run_op attrs dsets].
-  reflexivity.
+  intros c pre H Hpre; apply wf_parts in H as (Hk & Hp & (H1 & H2 & H3 & H4 & H5 & H6) & _ & _).
+  unfold attr_ops, attrs_body; destruct Hpre; subst pre;
+    cbn [run run_op aval_ok sbind attrs dsets aset Z.eqb Pos.eqb app];
+    rewrite (nucs_valid _ Hp); cbn [sbind run run_op attrs dsets aset Z.eqb Pos.eqb];
+    rewrite (o2a_ok _ H1); cbn [sbind run run_op attrs dsets aset Z.eqb Pos.eqb];
+    rewrite (o2a_ok _ H2); cbn [sbind run run_op attrs dsets aset Z.eqb Pos.eqb];
+    rewrite (o2a_ok _ H3); cbn [sbind run run_op attrs dsets aset Z.eqb Pos.eqb];
+    rewrite (o2a_ok _ H4); cbn [sbind run run_op attrs dsets aset Z.eqb Pos.eqb];
+    rewrite (o2a_ok _ H5); cbn [sbind run run_op attrs dsets aset Z.eqb Pos.eqb];
+    rewrite (o2a_ok _ H6); cbn [sbind run run_op attrs dsets aset Z.eqb Pos.eqb];
+    reflexivity.
 Qed.
+
+Lemma run_attr_ops : forall c, wf_coll c = true ->
+  run (attr_ops c) empty_store = SOk {| attrs := attrs_body c; dsets := [] |}.
+Proof. intros c H; apply (run_attr_ops_from c [] H); now left. Qed.
 
 (** the per-signature loop fills a zero-initialised dataset with the concatenation *)
 Lemma run_sig_writes : forall sigs pre st t,
@@ -441,11 +451,28 @@ Proof.
   rewrite (run_sig_writes sigs [] _ (c_ty c)); cbn [dsets attrs aget aset Z.eqb app]; reflexivity.
 Qed.
 
+Lemma run_body_ops : forall p c, wf_coll c = true ->
+  run (body_ops p c) empty_store = SOk {| attrs := attrs_body c; dsets := dsets_of p c |}.
+Proof.
+  intros p c H; unfold body_ops; rewrite run_app, (run_attr_ops c H); cbn [sbind].
+  apply wf_parts in H as (_ & _ & _ & Hi & _).
+  destruct p; [now apply run_data_whole|now apply run_data_persig].
+Qed.
+
 Lemma run_dump_ops : forall p c, wf_coll c = true ->
   run (dump_ops p c) empty_store = SOk {| attrs := attrs_of c; dsets := dsets_of p c |}.
 Proof.
-  intros p c H; unfold dump_ops; rewrite run_app, (run_attr_ops c H); cbn [sbind].
-  apply wf_parts in H as (_ & _ & _ & Hi & _).
+  intros p c H; unfold dump_ops; rewrite run_app, (run_body_ops p c H); cbn [sbind].
+  unfold attrs_of, attrs_body, marker_op; cbn [run run_op aval_ok sbind attrs dsets aset Z.eqb Pos.eqb app]. reflexivity.
+Qed.
+
+Lemma run_dump_ops_v0 : forall p c, wf_coll c = true ->
+  run (dump_ops_v0 p c) empty_store = SOk {| attrs := attrs_of_v0 c; dsets := dsets_of p c |}.
+Proof.
+  intros p c H; unfold dump_ops_v0, body_ops, marker_op.
+  cbn [run run_op aval_ok sbind attrs dsets aset empty_store].
+  rewrite run_app, (run_attr_ops_from c [(0, AInt 1)] H) by (now right); cbn [sbind app].
+  apply wf_parts in H as (_ & _ & _ & Hi & _). unfold attrs_of_v0.
   destruct p; [now apply run_data_whole|now apply run_data_persig].
 Qed.
 
@@ -456,31 +483,65 @@ Proof.
   apply wf_parts in H as (_ & _ & _ & _ & Hl); rewrite Hl, Nat.eqb_refl; reflexivity.
 Qed.
 
-Lemma load_written : forall p c, wf_coll c = true ->
-  load {| attrs := attrs_of c; dsets := dsets_of p c |} = SOk (loaded_of c).
+Lemma create_v0_ok : forall p c, wf_coll c = true ->
+  create_v0 p c = SOk {| attrs := attrs_of_v0 c; dsets := dsets_of p c |}.
 Proof.
-  intros p c H; apply wf_parts in H as (Hk & Hp & _).
-  unfold load; cbn [attrs attrs_of aget Z.eqb Pos.eqb].
-  rewrite (kmerspec_ok _ _ Hk Hp); cbn [sbind fst snd].
-  rewrite (get_meta_o2a 8 (m_extra (c_meta c))) by reflexivity; cbn [sbind].
-  rewrite (get_meta_o2a 3 (m_id (c_meta c))) by reflexivity; cbn [sbind].
-  rewrite (get_meta_o2a 4 (m_name (c_meta c))) by reflexivity; cbn [sbind].
-  rewrite (get_meta_o2a 5 (m_id_attr (c_meta c))) by reflexivity; cbn [sbind].
-  rewrite (get_meta_o2a 6 (m_version (c_meta c))) by reflexivity; cbn [sbind].
-  rewrite (get_meta_o2a 7 (m_desc (c_meta c))) by reflexivity; cbn [sbind].
-  unfold loaded_of; destruct c as [k pre ty sigs i m]; destruct m; cbn [c_meta c_ids c_sigs c_ty c_k c_prefix].
-  destruct p; cbn; destruct i; reflexivity.
+  intros p c H; unfold create_v0; rewrite (run_dump_ops_v0 p c H).
+  apply wf_parts in H as (_ & _ & _ & _ & Hl); rewrite Hl, Nat.eqb_refl; reflexivity.
 Qed.
 
+(** [load] reads the attributes by name: both attribute orders load alike *)
+Lemma load_written_any : forall at_ p c, wf_coll c = true -> at_ = attrs_of c \/ at_ = attrs_of_v0 c ->
+  load {| attrs := at_; dsets := dsets_of p c |} = SOk (loaded_of c).
+Proof.
+  intros at_ p c H Hat; apply wf_parts in H as (Hk & Hp & _).
+  unfold load; destruct Hat; subst at_;
+    cbn [attrs attrs_of attrs_of_v0 attrs_body app aget Z.eqb Pos.eqb];
+    rewrite (kmerspec_ok _ _ Hk Hp); cbn [sbind fst snd];
+    rewrite (get_meta_o2a 8 (m_extra (c_meta c))) by reflexivity; cbn [sbind];
+    rewrite (get_meta_o2a 3 (m_id (c_meta c))) by reflexivity; cbn [sbind];
+    rewrite (get_meta_o2a 4 (m_name (c_meta c))) by reflexivity; cbn [sbind];
+    rewrite (get_meta_o2a 5 (m_id_attr (c_meta c))) by reflexivity; cbn [sbind];
+    rewrite (get_meta_o2a 6 (m_version (c_meta c))) by reflexivity; cbn [sbind];
+    rewrite (get_meta_o2a 7 (m_desc (c_meta c))) by reflexivity; cbn [sbind];
+    unfold loaded_of; destruct c as [k pre ty sigs i m]; destruct m; cbn [c_meta c_ids c_sigs c_ty c_k c_prefix];
+    destruct p; cbn; destruct i; reflexivity.
+Qed.
+
+Lemma load_written : forall p c, wf_coll c = true ->
+  load {| attrs := attrs_of c; dsets := dsets_of p c |} = SOk (loaded_of c).
+Proof. intros p c H; apply (load_written_any _ p c H); now left. Qed.
+
+Lemma load_written_v0 : forall p c, wf_coll c = true ->
+  load {| attrs := attrs_of_v0 c; dsets := dsets_of p c |} = SOk (loaded_of c).
+Proof. intros p c H; apply (load_written_any _ p c H); now right. Qed.
+
 (** ---- final lemmas ------------------------------------------------------------------------------- *)
+
+Lemma marker_written : forall c, aget 0 (attrs_of c) = Some (AInt 1).
+Proof. reflexivity. Qed.
 
 Lemma C12_roundtrip_l : forall p c, wf_coll c = true ->
   exists st, create p c = SOk st /\ load_file (DHdf st) = SOk (loaded_of c) /\
              load_file_cur (DHdf st) = SOk (loaded_of c) /\ decode (loaded_of c) = SOk c.(c_sigs).
 Proof.
   intros p c H; eexists; split; [apply (create_ok p c H)|].
-  unfold load_file, load_file_cur; cbn [attrs attrs_of aget Z.eqb Pos.eqb].
+  unfold load_file, load_file_cur; cbn [attrs]; rewrite marker_written.
   rewrite (load_written p c H); repeat split; apply decode_loaded.
+Qed.
+
+(** the order as found (marker first) round-trips as well: the two orders differ only in what an
+    INTERRUPTED write leaves (C19) *)
+Lemma C12_roundtrip_v0_l : forall p c, wf_coll c = true ->
+  exists st, create_v0 p c = SOk st /\ load_file (DHdf st) = SOk (loaded_of c) /\
+             load_file_cur (DHdf st) = SOk (loaded_of c) /\
+             sbind (create_v0 p c) load = sbind (create p c) load.
+Proof.
+  intros p c H; eexists; split; [apply (create_v0_ok p c H)|].
+  unfold load_file, load_file_cur; cbn [attrs attrs_of_v0 aget Z.eqb Pos.eqb].
+  rewrite (load_written_v0 p c H); repeat split.
+  rewrite (create_v0_ok p c H), (create_ok p c H); cbn [sbind].
+  now rewrite (load_written_v0 p c H), (load_written p c H).
 Qed.
 
 Lemma C12_paths_agree_l : forall c, wf_coll c = true ->
